@@ -259,6 +259,73 @@ Proof. induction 1; [apply inv_init|eapply inv_step; eauto]. Qed.
 End Proofs.
 
 (* ================================================================================================ *)
+Section Measure.
+Variable N : nat.
+Variable C : nat.
+
+(* ---- termination: a measure that decreases on every step, from every state ---- *)
+Definition cw (rd : tree -> nat) (c : child) : nat :=
+  match c with (_, (sk, sub)) => if sk then 1 else match sub with Leaf _ => 2 | Dir _ _ => 5 + rd sub end end.
+Fixpoint rd (t : tree) : nat :=
+  match t with
+  | Dir true ch =>
+      1 + (sumS (fun c : child => match c with (_, (sk, sub)) =>
+                 if sk then 1 else match sub with Leaf _ => 2 | Dir _ _ => 5 + rd sub end end) ch + (2 * N + 3))
+  | _ => 2
+  end.
+Definition it (rest : list child) : nat := sumf (cw rd) rest + (2 * N + 3).
+Lemma rd_dir ch : rd (Dir true ch) = 1 + it ch.
+Proof. unfold it. cbn [rd]. rewrite sumS_sumf. reflexivity. Qed.
+Lemma rd_unreadable t : readable t = false -> rd t = 2.
+Proof. destruct t as [k|[|] ch]; cbn [readable rd]; intros H; try reflexivity; discriminate. Qed.
+
+Definition muw (w : wpc) : nat :=
+  match w with
+  | WRead _ t => rd t
+  | WIter _ rest => it rest
+  | WAdd _ _ sub rest => 3 + rd sub + it rest
+  | WPush _ _ sub rest => 2 + rd sub + it rest
+  | WAssert => 2 * N + 2
+  | WBcast k => 2 * k + 1
+  | _ => 0
+  end.
+Definition muj (j : job) : nat := match j with JDir _ t => 1 + rd t | JDone => 1 end.
+Definition muc (c : cstate) : nat := match c with CRun => 2 | CErr => 1 | _ => 0 end.
+Definition mu (s : state) : nat :=
+  sumf muj (jobs (gl s)) + sumf muw (ws s) + length (rq (gl s)) + muc (cons s).
+
+Lemma leaf_items_len q k : length (leaf_items q k) = 1.
+Proof. destruct k; reflexivity. Qed.
+
+Lemma wstep_decreases al g w g' w' : wstep N C al g w g' w' ->
+  sumf muj (jobs g') + length (rq g') + muw w' < sumf muj (jobs g) + length (rq g) + muw w.
+Proof.
+  intros Hw.
+  destruct Hw; cbn [jobs cnt rq leaked muw] in *;
+    repeat match goal with H : jobs _ = _ |- _ => rewrite H in * end;
+    rewrite ?sumf_app, ?app_length, ?leaf_items_len, ?rd_dir; unfold it; cbn [sumf muj cw length];
+    try match goal with H : readable _ = false |- _ => rewrite (rd_unreadable _ H) end;
+    try lia.
+Qed.
+
+Lemma step_decreases s s' : step N C s s' -> mu s' < mu s.
+Proof.
+  intros Hs. unfold mu.
+  destruct Hs as [s a w b g' w' Hws Hw|s e r Hc Hrq|s r Hc Hrq|s Hc|s Hc Hrq Hex];
+    cbn [gl ws cons recvd jobs cnt rq leaked].
+  - rewrite Hws, !sumf_app. cbn [sumf]. pose proof (wstep_decreases _ _ _ _ _ Hw). lia.
+  - rewrite Hrq, Hc. cbn [length muc]. lia.
+  - rewrite Hrq, Hc. cbn [length muc]. lia.
+  - rewrite Hc. cbn [length muc]. lia.
+  - rewrite Hc. cbn [muc]. lia.
+Qed.
+
+Lemma terminates s : Acc (fun a b => step N C b a) s.
+Proof. apply (well_founded_lt_compat _ mu). intros a b H. apply step_decreases. exact H. Qed.
+
+End Measure.
+
+(* ================================================================================================ *)
 (* consequences of the invariant                                                                      *)
 Section Consequences.
 Variable N : nat.
@@ -363,66 +430,6 @@ Proof.
   - destruct IH as [IH|IH]; congruence.
 Qed.
 
-(* ---- termination: a measure that decreases on every step, from every state ---- *)
-Definition cw (rd : tree -> nat) (c : child) : nat :=
-  match c with (_, (sk, sub)) => if sk then 1 else match sub with Leaf _ => 2 | Dir _ _ => 5 + rd sub end end.
-Fixpoint rd (t : tree) : nat :=
-  match t with
-  | Dir true ch =>
-      1 + (sumS (fun c : child => match c with (_, (sk, sub)) =>
-                 if sk then 1 else match sub with Leaf _ => 2 | Dir _ _ => 5 + rd sub end end) ch + (2 * N + 3))
-  | _ => 2
-  end.
-Definition it (rest : list child) : nat := sumf (cw rd) rest + (2 * N + 3).
-Lemma rd_dir ch : rd (Dir true ch) = 1 + it ch.
-Proof. unfold it. cbn [rd]. rewrite sumS_sumf. reflexivity. Qed.
-Lemma rd_unreadable t : readable t = false -> rd t = 2.
-Proof. destruct t as [k|[|] ch]; cbn [readable rd]; intros H; try reflexivity; discriminate. Qed.
-
-Definition muw (w : wpc) : nat :=
-  match w with
-  | WRead _ t => rd t
-  | WIter _ rest => it rest
-  | WAdd _ _ sub rest => 3 + rd sub + it rest
-  | WPush _ _ sub rest => 2 + rd sub + it rest
-  | WAssert => 2 * N + 2
-  | WBcast k => 2 * k + 1
-  | _ => 0
-  end.
-Definition muj (j : job) : nat := match j with JDir _ t => 1 + rd t | JDone => 1 end.
-Definition muc (c : cstate) : nat := match c with CRun => 2 | CErr => 1 | _ => 0 end.
-Definition mu (s : state) : nat :=
-  sumf muj (jobs (gl s)) + sumf muw (ws s) + length (rq (gl s)) + muc (cons s).
-
-Lemma leaf_items_len q k : length (leaf_items q k) = 1.
-Proof. destruct k; reflexivity. Qed.
-
-Lemma wstep_decreases al g w g' w' : wstep N C al g w g' w' ->
-  sumf muj (jobs g') + length (rq g') + muw w' < sumf muj (jobs g) + length (rq g) + muw w.
-Proof.
-  intros Hw.
-  destruct Hw; cbn [jobs cnt rq leaked muw] in *;
-    repeat match goal with H : jobs _ = _ |- _ => rewrite H in * end;
-    rewrite ?sumf_app, ?app_length, ?leaf_items_len, ?rd_dir; unfold it; cbn [sumf muj cw length];
-    try match goal with H : readable _ = false |- _ => rewrite (rd_unreadable _ H) end;
-    try lia.
-Qed.
-
-Lemma step_decreases s s' : step N C s s' -> mu s' < mu s.
-Proof.
-  intros Hs. unfold mu.
-  destruct Hs as [s a w b g' w' Hws Hw|s e r Hc Hrq|s r Hc Hrq|s Hc|s Hc Hrq Hex];
-    cbn [gl ws cons recvd jobs cnt rq leaked].
-  - rewrite Hws, !sumf_app. cbn [sumf]. pose proof (wstep_decreases _ _ _ _ _ Hw). lia.
-  - rewrite Hrq, Hc. cbn [length muc]. lia.
-  - rewrite Hrq, Hc. cbn [length muc]. lia.
-  - rewrite Hc. cbn [length muc]. lia.
-  - rewrite Hc. cbn [muc]. lia.
-Qed.
-
-Lemma terminates s : Acc (fun a b => step N C b a) s.
-Proof. apply (well_founded_lt_compat _ mu). intros a b H. apply step_decreases. exact H. Qed.
-
 (* ---- no reachable non-final state is stuck ---- *)
 Definition blocked (g : glob) (w : wpc) : Prop := exited w = true \/ (w = WIdle /\ jobs g = []).
 (* final: end-of-list delivered, or the listing failed and every worker has exited or waits for
@@ -521,6 +528,28 @@ Proof.
   - left. destruct (eos_exactly_once _ _ Hr Hc) as [He Hp]. destruct (eos_complete _ _ Hr Hc) as (_ & Hw & _). auto.
   - right. destruct (has_error root) eqn:He; [auto|].
     destruct (noerror_never_fails _ _ Hr He); congruence.
+Qed.
+
+(* Non-vacuity, for every tree: some execution exists that runs until nothing is enabled
+   (by well-founded induction on the measure, using no_stuck). *)
+Lemma run_to_final root s : reach N C root s ->
+  exists s', reach N C root s' /\ final s' /\ (forall s'', ~ step N C s' s'').
+Proof.
+  intros Hr. induction (terminates N C s) as [s _ IH].
+  destruct (no_stuck _ _ Hr) as [Hf|(s' & Hs)].
+  - exists s. repeat split; auto. intros s'' Hs.
+    destruct Hf as [Hc|[Hc Hbl]].
+    + destruct (eos_complete _ _ Hr Hc) as (_ & Hw & _ & Hrq & _).
+      destruct Hs as [s a w b g' w' Hws Hst|s e r Hc' Hrq'|s r Hc' Hrq'|s Hc'|s Hc' Hrq' Hex]; try congruence.
+      apply exited_no_step in Hst. rewrite Hw in Hws.
+      assert (Hin : In w (repeat WExit N)) by (rewrite Hws; apply in_or_app; right; left; reflexivity).
+      apply repeat_spec in Hin. subst w. discriminate.
+    + destruct Hs as [s a w b g' w' Hws Hst|s e r Hc' Hrq'|s r Hc' Hrq'|s Hc'|s Hc' Hrq' Hex]; try congruence.
+      rewrite Hws in Hbl. apply Forall_app in Hbl as [_ Hbl]. inversion Hbl as [|? ? Hw _]; subst.
+      destruct Hw as [Hw|[-> Hj]].
+      * apply exited_no_step in Hst. congruence.
+      * inversion Hst; congruence.
+  - apply (IH s' Hs). eapply r_step; eauto.
 Qed.
 
 End Consequences.
